@@ -25,6 +25,12 @@ func verifPar(fs ...func()) {
 }
 
 func VH_C19_tunneltime() {
+	for rep := 0; rep < verifRepeat(150); rep++ {
+		verifBody_C19_tunneltime()
+	}
+}
+
+func verifBody_C19_tunneltime() {
 	verifRaceDetect(true)
 	verifSched(1)
 	base := time.Now()
@@ -42,6 +48,12 @@ func VH_C19_tunneltime() {
 
 // two connections report concurrently while a scrape runs
 func VH_C19_connmetrics() {
+	for rep := 0; rep < verifRepeat(150); rep++ {
+		verifBody_C19_connmetrics()
+	}
+}
+
+func verifBody_C19_connmetrics() {
 	verifRaceDetect(true)
 	verifSched(1)
 	m, _ := NewServiceMetrics(nil)
@@ -62,4 +74,27 @@ func VH_C19_connmetrics() {
 		func() { m.Collect(make(chan prometheus_Metric, 64)) },
 	)
 	verifReach("C19.connmetrics.done", true)
+}
+
+// the last tunnel of a client closes while a scrape runs
+func VH_C19_scrape_vs_last_close() {
+	for rep := 0; rep < verifRepeat(150); rep++ {
+		verifBody_C19_scrape_vs_last_close()
+	}
+}
+
+func verifBody_C19_scrape_vs_last_close() {
+	verifRaceDetect(true)
+	verifSched(1)
+	c := newTunnelTimeMetrics(nil)
+	k1 := IPKey{netip.AddrFrom4([4]byte{203, 0, 113, 5}), "k1"}
+	k2 := IPKey{netip.AddrFrom4([4]byte{203, 0, 113, 6}), "k1"}
+	c.startConnection(k1)
+	c.startConnection(k2)
+	verifPar(
+		func() { c.stopConnection(k1) },
+		func() { c.Collect(make(chan prometheus_Metric, 16)) },
+		func() { c.stopConnection(k2) },
+	)
+	verifReach("C19.scrape-vs-close.done", true)
 }
